@@ -289,6 +289,14 @@ func expectedPairs(c *Case) []string {
 		if p[1] == "vs" {
 			v = "\"http://e.com/*" + v + "*/,}:{\""
 		}
+		switch p[1] {
+		case "vf":
+			v = "func() { g" + v + "() }"
+		case "vd0":
+			v = "{}"
+		case "vd2":
+			v = "{ m: " + v + ", n: 2, }"
+		}
 		out = append(out, keyText[p[0]]+" : "+v)
 	}
 	sort.Strings(out)
@@ -322,7 +330,7 @@ func dictProjection(src []byte) (pairs []string, keys []string, multiline bool, 
 		}
 		var b bytes.Buffer
 		format.Node(&b, fset, e)
-		return b.String()
+		return normSpace(b.String()) // (values that run over several lines: the indentation is not part of the value)
 	}
 	var lit *ast.CompositeLit
 	ast.Inspect(f, func(n ast.Node) bool {
